@@ -183,9 +183,11 @@ Theorem C14_moved_record_cleans_old_session : forall st r e st',
 Proof. exact move_record_msg. Qed.
 Print Assumptions C14_moved_record_cleans_old_session.
 
-(** The five lookups hold, after ANY history, exactly the keys named by stored content:
-    account -> scope (owners and data access), scope spec -> scope, account -> scope spec
-    (owners), contract spec -> scope spec, account -> contract spec (owners). *)
+(** Lookups.  An owner / data-access / specification-owner entry is a bech32 string; the same
+    account has two legal spellings (entry a and 100+a, [acct] decodes).  After ANY history each of
+    the five lookups (account -> scope by owners and data access, scope spec -> scope, account ->
+    scope spec, contract spec -> scope spec, account -> contract spec) holds exactly the keys named
+    by stored content, whatever the spelling of the entries. *)
 Theorem C14_indexes_exact : forall ops, let st := run ops in
   (forall k, In k (ix_as st) <-> exists s, In s (scopes st) /\ In k (scope_keys_as s)) /\
   (forall k, In k (ix_ss st) <-> exists s, In s (scopes st) /\ In k (scope_keys_ss s)) /\
@@ -194,6 +196,26 @@ Theorem C14_indexes_exact : forall ops, let st := run ops in
   (forall k, In k (ix_ac st) <-> exists s, In s (cspecs st) /\ In k (cspec_keys_ac s)).
 Proof. exact indexes_exact. Qed.
 Print Assumptions C14_indexes_exact.
+
+(** The statement above was FALSE of the code before fix 722f4df35 (finding
+    C14-spec-owner-respelling, findings/C14.md): the two specification writers diffed the owner
+    STRINGS ([set_sspec_strdiff], [set_cspec_strdiff]), so an owner whose spelling changed across an
+    update had its key written and then deleted.  That variant stores the specification naming the
+    account but does not list it; the current writers do.  (Theorem name as requested by the
+    coordinator; nothing here concerns key prefixes.) *)
+Theorem C14_spec_owner_lookup_prefix_refuted :
+  (let s := Ss 1 [103] [] in
+   let bad := set_sspec_strdiff (set_sspec init (Ss 1 [3] [])) s in
+   let good := set_sspec (set_sspec init (Ss 1 [3] [])) s in
+   In s (sspecs bad) /\ In (3, 1) (sspec_keys_asp s) /\ ~ In (3, 1) (ix_asp bad) /\
+   In (3, 1) (ix_asp good)) /\
+  (let c := Cs 1 [103] in
+   let bad := set_cspec_strdiff (set_cspec init (Cs 1 [3])) c in
+   let good := set_cspec (set_cspec init (Cs 1 [3])) c in
+   In c (cspecs bad) /\ In (3, 1) (cspec_keys_ac c) /\ ~ In (3, 1) (ix_ac bad) /\
+   In (3, 1) (ix_ac good)).
+Proof. exact spec_owner_strdiff_refuted. Qed.
+Print Assumptions C14_spec_owner_lookup_prefix_refuted.
 
 (** Primary entries are keyed uniquely after ANY history. *)
 Theorem C14_keys_unique : forall ops, let st := run ops in
@@ -219,6 +241,9 @@ Example C14_witness :
   step (run demo) (MDeleteScope 5) =
     (St [] [] [] [Ss 1 [2] [1]] [Cs 1 [1]] [Rs 1 7] [] [] [] [(2, 1)] [(1, 1)] [(1, 1)], true) /\
   sessions (run [KSetSession (Se 9 9 9)]) = [Se 9 9 9] /\ scopes (run [KSetSession (Se 9 9 9)]) = [] /\
+  ix_as (run [KSetScope (Sc 1 1 [3] []); KSetScope (Sc 1 1 [103] [])]) = [(3, 1)] /\
+  ix_asp (run [KSetSSpec (Ss 1 [3] []); KSetSSpec (Ss 1 [103] [])]) = [(3, 1)] /\
+  ix_ac (run [KSetCSpec (Cs 1 [3; 103]); KSetCSpec (Cs 1 [103])]) = [(3, 1)] /\
   (let u := repeat 7%N 16 in let v := repeat 255%N 16 in
    maddr_wf (ARecord u v) /\ parse (maddr_bytes (ARecord u v)) = Some (ARecord u v) /\
    as_scope_address (maddr_bytes (ASession u v)) = Some (maddr_bytes (AScope u)) /\
